@@ -37,7 +37,7 @@ CONSTANTS
   Kinds,    \* deviation kinds explored   (cfg: Kinds <- AllKinds)
   VKinds    \* verification variants explored (cfg: VKinds <- AllVKinds)
 
-BugNames == {"SkipClientMac", "SkipServerMac", "MacOverEcho", "NoFormatTag",
+BugNames == {"SkipClientMac", "SkipServerMac", "MacOverEcho", "ServerProofNoNonce", "NoFormatTag",
              "IdentityFromClaim", "SkipExpiry", "SkipMaxAge",
              "VerifySkipsSig", "VerifySkipsTime"}
 
@@ -117,7 +117,7 @@ MessageDevs ==
        {D(k, m, "-", "wire") : k \in {"status_err", "status_abort", "status_other", "trail", "cut"}, m \in 1..3}
   \cup {D("mac_wrong", m, p, "wire") : m \in {2, 3}, p \in Pos}
   \cup {D(k, m, "-", "wire") : k \in {"mac_trunc", "mac_empty", "mac_long", "replay_msg", "replay_mac", "forge"}, m \in {2, 3}}
-  \cup {D("reflect", 3, "-", "wire")}
+  \cup {D("reflect", 3, "-", "wire"), D("replay_proof", 2, "-", "wire")}
   \cup {D("echo_wrong", m, p, "wire") : m \in {2, 3}, p \in Pos}
   \cup {D(k, m, "-", "wire") : k \in {"echo_trunc", "echo_empty"}, m \in {2, 3}}
   \cup {D("nonce_wrong", m, p, "wire") : m \in {1, 2}, p \in Pos}
@@ -150,10 +150,11 @@ VARIABLES
   m1, m2, m3,        \* messages as received (after the deviation)
   m2s,               \* message 2 as the server sent it
   sErr,              \* the server has stored an error (deferred failure)
+  tol,               \* an endpoint went on although a strict check was violated
   cOut, sOut, sUser, \* results: "pending" | "ok" | "fail" | "na" ; recorded identity
   vOut               \* "pending" | "accept" | "reject"
 
-vars == <<pc, mode, dev, cTok, cSig, m1, m2, m3, m2s, sErr, cOut, sOut, sUser, vOut>>
+vars == <<pc, mode, dev, cTok, cSig, m1, m2, m3, m2s, sErr, tol, cOut, sOut, sUser, vOut>>
 
 (* the token a party presents under deviation d, and the key it was signed with *)
 TimeTok(kind) ==
@@ -193,7 +194,7 @@ Init ==
      \/ mode = "verify" /\ dev \in {[kind |-> d.kind, msg |-> 0, pos |-> d.pos, via |-> "verify"] : d \in {x \in VCatalogue : x.kind \in VKinds}}
   /\ cTok = BaseTok /\ cSig = Sig("K1", BaseTok)
   /\ m1 = NoMsg1 /\ m2 = NoMsg2 /\ m3 = NoMsg3 /\ m2s = NoMsg2
-  /\ sErr = FALSE
+  /\ sErr = FALSE /\ tol = FALSE
   /\ cOut = "pending" /\ sOut = "pending" /\ sUser = "" /\ vOut = "pending"
 
 (* ---- the client obtains its credential (configuration deviations) ------- *)
@@ -219,7 +220,7 @@ LoadCredential ==
   /\ cTok' = ConfigTok(dev) /\ cSig' = ConfigSig(dev)
   /\ \/ pc' = "c1" /\ UNCHANGED <<cOut, sOut>>
      \/ ClientMayRefuse(dev) /\ pc' = "done" /\ cOut' = "fail" /\ sOut' = "fail"
-  /\ UNCHANGED <<mode, dev, m1, m2, m3, m2s, sErr, sUser, vOut>>
+  /\ UNCHANGED <<mode, dev, m1, m2, m3, m2s, sErr, tol, sUser, vOut>>
 
 (* ---- message 1 and its deviation ----------------------------------------- *)
 Honest1 == Msg1(OK, cTok.sub, cTok, "ra1")
@@ -249,7 +250,7 @@ ClientSend1 ==
   /\ pc = "c1"
   /\ m1' = Dev1(dev, Honest1)
   /\ pc' = "s1"
-  /\ UNCHANGED <<mode, dev, cTok, cSig, m2, m3, m2s, sErr, cOut, sOut, sUser, vOut>>
+  /\ UNCHANGED <<mode, dev, cTok, cSig, m2, m3, m2s, sErr, tol, cOut, sOut, sUser, vOut>>
 
 (* ---- server: receive 1, validate the token, derive keys, send 2 ---------- *)
 (* receiveServerTokenStep1 + validateTokenAndDeriveKeys + validateTokenTiming *)
@@ -298,6 +299,7 @@ Dev2(d, m) ==
     [] d.kind = "mac_empty" -> [m EXCEPT !.mac = NoMac]
     [] d.kind = "replay_msg" -> Old2
     [] d.kind = "replay_mac" -> [m EXCEPT !.mac = Old2.mac]
+    [] d.kind = "replay_proof" -> [m EXCEPT !.rb = Old2.rb, !.mac = Old2.mac]   \* old nonce and proof, current echo
     [] d.kind = "forge" -> [m EXCEPT !.mac = Mac(JunkK, "m2", m.a, m.b, m.ra, m.rb, "outsider", 1)]
     [] d.kind = "echo_wrong" -> [m EXCEPT !.ra = "raX"]
     [] d.kind = "echo_trunc" -> [m EXCEPT !.ra = "short"]
@@ -314,6 +316,7 @@ ServerStep12 ==
        /\ LET err == NecFail1(m1) \/ strict
               sent == Honest2(m1, err)
           IN /\ sErr' = err
+             /\ tol' = (~err /\ StrictViolated1(m1))
              /\ m2s' = sent
              /\ m2' = Dev2(dev, sent)
   /\ pc' = "c2"
@@ -330,7 +333,7 @@ NecFail2(m) ==
   ~ ( /\ WellFormed(m.mac)
       /\ m.mac.k = CK
       /\ ("NoFormatTag" \in Bug \/ m.mac.fmt = "m2")
-      /\ m.mac.ra = "ra1" )
+      /\ ("ServerProofNoNonce" \in Bug \/ m.mac.ra = "ra1") )
 StrictViolated2(m) ==
   \/ m.status # OK \/ m.trail \/ m.bad
   \/ m.a # cTok.sub \/ m.ra # "ra1"
@@ -371,9 +374,12 @@ Dev3(d, m) ==
 ClientStep23 ==
   /\ pc = "c2"
   /\ \E strict \in BOOLEAN :
-       /\ strict => StrictViolated2(m2)
+       \* once a peer has tolerated an irregular message, what it then sends may
+       \* itself be irregular in ways the statement does not constrain
+       /\ strict => (StrictViolated2(m2) \/ tol)
        /\ LET err == NecFail2(m2) \/ strict
           IN /\ cOut' = IF dev.via = "insider" THEN "na" ELSE IF err THEN "fail" ELSE "ok"
+             /\ tol' = (tol \/ (~err /\ StrictViolated2(m2)))
              /\ m3' = Dev3(dev, Honest3(m2, err))
   /\ pc' = "s3"
   /\ UNCHANGED <<mode, dev, cTok, cSig, m1, m2, m2s, sErr, sOut, sUser, vOut>>
@@ -397,12 +403,12 @@ StrictViolated3(m) ==
 ServerStep3 ==
   /\ pc = "s3"
   /\ \E strict \in BOOLEAN :
-       /\ strict => StrictViolated3(m3)
+       /\ strict => (StrictViolated3(m3) \/ tol)
        /\ IF NecFail3(m3) \/ strict
           THEN sOut' = "fail" /\ sUser' = ""
           ELSE sOut' = "ok" /\ sUser' = SubjectOf(m1)
   /\ pc' = "done"
-  /\ UNCHANGED <<mode, dev, cTok, cSig, m1, m2, m3, m2s, sErr, cOut, vOut>>
+  /\ UNCHANGED <<mode, dev, cTok, cSig, m1, m2, m3, m2s, sErr, tol, cOut, vOut>>
 
 (* ---- standalone verification (VerifyIDToken) ----------------------------- *)
 VTok ==
@@ -428,7 +434,7 @@ Verify ==
                      \/ strict
                   THEN "reject" ELSE "accept"
   /\ pc' = "done"
-  /\ UNCHANGED <<mode, dev, cTok, cSig, m1, m2, m3, m2s, sErr, cOut, sOut, sUser>>
+  /\ UNCHANGED <<mode, dev, cTok, cSig, m1, m2, m3, m2s, sErr, tol, cOut, sOut, sUser>>
 
 Next == LoadCredential \/ ClientSend1 \/ ServerStep12 \/ ClientStep23 \/ ServerStep3 \/ Verify
 
